@@ -17,12 +17,53 @@ def _IN():
 
 
 class Tensor:
-    """heap cell holding an (immutable) lazy tensor value; identity matters for in-place ops"""
+    """heap cell holding an (immutable) lazy tensor value; identity matters for in-place ops.
+
+    Aliasing: a cell made by a VIEW operation of torch (basic indexing, reshape / view / flatten of a contiguous
+    tensor, squeeze / unsqueeze, permute / transpose / T, detach / .data, expand, narrow) shares the storage of its
+    base: it is a lens (fwd, bwd) on the base cell -- reading recomputes it from the base's current value, an in-place
+    update is written back into the base (and so on up the chain).  `contig` records whether the memory layout is
+    known to be contiguous: reshape of a non-contiguous tensor is a view or a copy depending on strides the model does
+    not track, such a result is a copy that may not be written to, nor read after its base changed (Unsupported)."""
 
     def __init__(self, val, requires_grad=False):
-        self.val = val
+        self._val = val
+        self._view = None  # (base cell, fwd(base value) -> value, bwd(base value, new value) -> new base value | None)
+        self._cache = None
+        self._maybe = None  # (base cell, base value at creation): aliasing undetermined
+        self.contig = True
         self.requires_grad = requires_grad
         self.meta = {}
+
+    @property
+    def val(self):
+        if self._view is None:
+            if self._maybe is not None and self._maybe[0].val is not self._maybe[1]:
+                raise Unsupported("read of a reshape of a non-contiguous tensor after its base was updated in place (view or copy depends on strides)")
+            return self._val
+        base, fwd, _ = self._view
+        bv = base.val
+        if self._cache is None or self._cache[0] is not bv:
+            self._cache = (bv, fwd(bv))
+        return self._cache[1]
+
+    @val.setter
+    def val(self, v):
+        if self._view is None:
+            if self._maybe is not None:
+                raise Unsupported("in-place update of a reshape of a non-contiguous tensor (view or copy depends on strides)")
+            self._val = v
+            return
+        base, fwd, bwd = self._view
+        if bwd is None:
+            raise Unsupported("in-place update through this kind of view (expand)")
+        base.val = bwd(base.val, v)
+        self._cache = (base.val, v)
+
+    def rebind(self, v):
+        """`t.data = other`: the cell points to new storage, views of the old storage are unaffected"""
+        self._view, self._cache, self._maybe, self.contig = None, None, None, True
+        self._val = v
 
     def clone_cell(self):
         t = Tensor(self.val, self.requires_grad)
@@ -39,15 +80,35 @@ class Tensor:
                 autograd.register_leaf(I, self)
             return
         if name == "data":
-            self.val = lift(v)
+            self.rebind(lift(v))
             return
         if name == "grad":
             self.meta["grad"] = v
+            return
+        if name.startswith("_") and not name.startswith("__"):
+            # a private Python attribute stored in the tensor's __dict__ (real tensors accept them)
+            self.meta.setdefault("pyattrs", {})[name] = v
             return
         raise Unsupported(f"set tensor.{name}")
 
     def __repr__(self):
         return f"Tensor({self.val})"
+
+
+def make_view(base, value, fwd, bwd, contig):
+    """the cell of a torch view of `base` (current value `value` = fwd(base.val))"""
+    t = Tensor(None)
+    t._view = (base, fwd, bwd)
+    t._cache = (base.val, value)
+    t.contig = contig
+    return t
+
+
+def maybe_alias(base, value):
+    """a result that torch makes a view or a copy depending on strides (reshape of a non-contiguous tensor)"""
+    t = Tensor(value)
+    t._maybe = (base, base.val)
+    return t
 
 
 def T(x):
